@@ -652,6 +652,9 @@ func (e *Env) evalCall(n ECall) tv {
 		if snap == nil {
 			snap = s.atLock
 		}
+		if snap == nil {
+			snap = e.old // no lock taken on this path: the entry state
+		}
 		return e.withHeap(snap, func() tv { return e.eval(n.Args[0]) })
 	case "len":
 		v := e.eval(n.Args[0])
@@ -773,6 +776,24 @@ func (e *Env) evalCall(n ECall) tv {
 		r := ce.eval(pd.Body)
 		e.errs = append(e.errs, ce.errs[len(e.errs):]...)
 		return r
+	}
+	// repo functions declared pure: the same uninterpreted function the call sites use
+	if e.pkg != nil {
+		key := e.pkg.Name() + "." + n.Fn
+		if fc, ok := c.eng.contracts.funcs[key]; ok && fc.Pure {
+			if fn := c.eng.fnByKey[key]; fn != nil {
+				var args []Value
+				for _, a := range n.Args {
+					args = append(args, e.eval(a).v)
+				}
+				rt := fn.Signature.Results()
+				var t types.Type = rt
+				if rt.Len() == 1 {
+					t = rt.At(0).Type()
+				}
+				return tv{c.pureResult(s, fc, nil, args, t), t}
+			}
+		}
 	}
 	// uninterpreted spec functions: uf_<name>(args) with result sort from suffix
 	if strings.HasPrefix(n.Fn, "uf_") {
